@@ -1128,7 +1128,12 @@ def _eval_typed(ctx, case):
                         outs.append(["E", errname(ex)])
                         ctx.count("copy:" + errname(ex))
                 elif c[0] == "W":
-                    itp.write(g)
+                    try:
+                        itp.write(g)
+                    except Exception as ex:      # noqa: BLE001  (writing a loaded topology back never raises)
+                        ctx.oracle_fail("typed:write-raises-" + errname(ex), case, {"error": repr(ex)[:200]})
+                        outs.append(["E", errname(ex)])
+                        break
                     del itp
                     written = open(g, "rb").read().decode("latin-1")
                     try:
